@@ -87,10 +87,14 @@ Proof.
   exists l1, r1. cbn. auto.
 Qed.
 
+Ltac pfx_prim := apply pfx_state; intros s0; split; reflexivity.
 Theorem pfx_checkOnce geom LF lvl p : PFX (checkOnce geom LF lvl p).
 Proof.
-  apply (P_checkOnce (@PFX)); intros; try (apply pfx_state; intros s0; split; reflexivity).
+  apply (P_checkOnce (@PFX)); intros; try pfx_prim.
   - apply pfx_bind; assumption.
+  - apply pfx_state. intros s0. unfold signal. destruct k; split; reflexivity.
+  - apply pfx_state. intros s0. unfold context_call. destruct (ctx (ts s0)); [|destruct (cleaning (ts s0))]; split; reflexivity.
+  - apply pfx_state. intros s0. unfold pop_cleanup. destruct (cleanups (ts s0)) as [|[i c] r]; split; reflexivity.
   - apply pfx_state. intros s0. unfold failOnError. destruct (failed (ts s0)); split; reflexivity.
   - apply pfx_drawBits.
   - apply pfx_group_d; assumption.
